@@ -1157,8 +1157,24 @@ func (e *E) Read() {
 		if err == nil && !has {
 			e.R.Fail("value", "Has", "Has(%q) = false for a stored setting", name)
 		}
-		if !strings.Contains(name, ".") {
-			e.R.MustComplete("CountField", func() { cfg.CountField(name, e.opts...) })
+		if _, numeric := strconv.Atoi(name); !strings.Contains(name, ".") && numeric != nil {
+			// (CountField takes a name, not an index.) CountField evaluates the setting: a primitive counts as one entry, and what cannot be
+			// evaluated is an error here as in every other read (C08: "every read operation")
+			var n int
+			var cerr error
+			e.R.MustComplete("CountField", func() { n, cerr = cfg.CountField(name, e.opts...) })
+			e.R.Tracef("CountField(%q)%s = %d, %v   [model: %s]", name, via, n, cerr, describeOutcome(o))
+			switch {
+			case o.E == EOK && (o.V.K == VDict || o.V.K == VList):
+				if cerr != nil {
+					e.expect("CountField", path, o, "?", cerr)
+				}
+			case o.E == EOK:
+				e.expect("CountField", path, Outcome{V: &Val{K: VInt, I: 1}}, strconv.Itoa(n), cerr)
+			case o.E == EType:
+			default:
+				e.expect("CountField", path, o, strconv.Itoa(n), cerr)
+			}
 		}
 	}
 	if after := fp.Fingerprint(e.rootCfg); after != before {
